@@ -10,6 +10,9 @@ TRUST = ("Trusted base: go/packages + go/types type-checking of /repo's working 
 
 # id -> (technique, level text, design ref)
 CLAIMED = {
+ "C04": ("reaching-constants dataflow over the template data map (datakeys), abstract template expansion (variants) parsed with go/parser, keyword semantics tables, CONSUMES via reachability-scoped field reads, sibling-direction and loop-exit lints, SSA path table of ValidateFormat",
+         "Static necessary conditions only: decode/validate gate before the endpoint in every handler variant, keyword templates emit the comparison their bound names, definite template flags at every execute site, every validation keyword consumed, consistent merge directions, complete recursion, required-list merging visits every element, must-validate decisions consult every collection and accumulate, runtime format predicates. Does not decide that emitted validators accept exactly the valid values.",
+         "DESIGN.md §3 C04"),
  "C05": ("SSA path tables (default error encoder closure, status table, constructors), struct-literal field fidelity, stale-flag lint, template parse-tree rules (fallback arms, range-element rule, header constant agreement)",
          "Static necessary conditions only: one well-ordered response per path of the default error encoder, exhaustive default status table, fault wrapping of non-service errors, constructor flag triples and field fidelity, standard names of decoding/validation errors, fallback of undeclared errors in the generated encoder, no stale flag in the error→response resolution, no element confusion in template range bodies. Does not decide name-based dispatch end to end for arbitrary designs.",
          "DESIGN.md §3 C05"),
